@@ -159,6 +159,32 @@ class _PolarityNormaliser(ast.NodeTransformer):
                 n.body, n.orelse = n.orelse, n.body
         return n
 
+    def visit_Assign(self, n):
+        """`a, b = x, y` -> `a = x` / `b = y` when no target name occurs in the
+        values: one spelling for rules that look at single assignments."""
+        self.generic_visit(n)
+        if len(n.targets) == 1 and isinstance(
+                n.targets[0], (ast.Tuple, ast.List)) and isinstance(
+                n.value, (ast.Tuple, ast.List)) and len(
+                n.targets[0].elts) == len(n.value.elts) and not any(
+                isinstance(e, ast.Starred)
+                for e in n.targets[0].elts + n.value.elts):
+            ts, vs = n.targets[0].elts, n.value.elts
+            # sequential execution equals the parallel one iff no value
+            # mentions a target assigned before it
+            independent = all(isinstance(t, ast.Name) for t in ts) and not any(
+                isinstance(x, ast.Name) and x.id in {t.id for t in ts[:j]}
+                for j, v in enumerate(vs) for x in ast.walk(v))
+            if independent:
+                out = []
+                for t, v in zip(n.targets[0].elts, n.value.elts):
+                    a = ast.Assign(targets=[t], value=v)
+                    ast.copy_location(a, n)
+                    a.end_lineno = getattr(n, 'end_lineno', n.lineno)
+                    out.append(a)
+                return out
+        return n
+
     def visit_IfExp(self, n):
         self.generic_visit(n)
         inner = self._strip(n.test)
